@@ -120,6 +120,13 @@ CHECKS = {
              "Equal/DeepEqual/GetUnderlying/Is* against an independent canonical form; at parser level every ordered pair of the syntax-expressible closure is put "
              "through initialisation, assignment and cast by the real front end and compared with the property's three-clause rule.",
         note="Trusts: the harness's canonical form (derived from its own construction terms); Standardwert expressions as type-S sources; a seeded sample is re-judged in Python."),
+    "C15": dict(
+        technique="runtime monitoring: differential monitor (generic program vs textual specialisation) on front-end verdict and compiled behaviour",
+        category="exploration", design="§4 C15, §10",
+        text="Held-on-observed: each generated unit is printed twice from one description - G with generic functions/Kombinationen, M with one textual specialisation per "
+             "instantiation - and both must agree on front-end acceptance, on kddp producing an executable, and on stdout/exit status at -O 0/1/2; verdict pairs check "
+             "that binding one type parameter to two types is rejected and that equal instantiations are one type. Upstream's generics tests are positive controls.",
+        note="Trusts: the specialiser (validated by the positive controls; an M-side control failure voids the run)."),
     "C16": dict(
         technique="runtime monitoring: repetition monitor (N in-process parses + fresh kddp processes) with an order-injection hook at the map-iteration site",
         category="exploration", design="§4 C16",
